@@ -308,6 +308,10 @@ pub enum GRef<'g> {
 type BoxFut<'g> = Pin<Box<dyn Future<Output = CallOut> + 'g>>;
 type Rx = mpsc::Receiver<InterruptSignal>;
 
+pub fn strategy_of_pub(s: Strat) -> Option<InterruptStrategy> {
+    strategy_of(s)
+}
+
 fn strategy_of(s: Strat) -> Option<InterruptStrategy> {
     match s {
         Strat::Non => None,
@@ -318,11 +322,26 @@ fn strategy_of(s: Strat) -> Option<InterruptStrategy> {
 }
 
 /// `StreamOpts` with the receiver owned by the interruptibility state.
-fn make_opts<'a>(rev: bool, strat: Strat, incl: bool, rx: Option<Rx>) -> StreamOpts<'a, 'a> {
+/// Where the interruptibility of a run comes from: its own receiver, or a state shared with
+/// earlier operations (`reborrow`).
+pub enum IntSrc<'a> {
+    Rx(Option<Rx>),
+    State(InterruptibilityState<'a, 'a>),
+}
+
+fn make_opts<'a>(rev: bool, strat: Strat, incl: bool, rx: IntSrc<'a>) -> StreamOpts<'a, 'a> {
     let mut o = StreamOpts::new();
     if rev {
         o = o.rev();
     }
+    let rx = match rx {
+        IntSrc::State(state) => {
+            return o
+                .interruptibility_state(state)
+                .interrupted_next_item_include(incl);
+        }
+        IntSrc::Rx(rx) => rx,
+    };
     if let Some(strategy) = strategy_of(strat) {
         let rx = rx.expect("harness: receiver is present whenever strat != non");
         o = o.interruptibility_state(InterruptibilityState::new(Interruptibility::new(
@@ -338,7 +357,7 @@ fn make_call<'g>(
     g: GRef<'g>,
     cfg: &CallCfg,
     sh: &Rc<RefCell<Shared>>,
-    rx: Option<Rx>,
+    rx: IntSrc<'g>,
 ) -> BoxFut<'g> {
     // `lim=0` of the case format stands for "unbounded": `None` on graphs with an even number of
     // functions, `Some(0)` on graphs with an odd number (both must behave the same).
@@ -571,7 +590,7 @@ impl<'g> CallRun<'g> {
         } else {
             (None, Some(rx))
         };
-        let fut = make_call(g, cfg, &sh, rx_lib);
+        let fut = make_call(g, cfg, &sh, IntSrc::Rx(rx_lib));
         CallRun {
             fut: Some(fut),
             sh,
@@ -579,6 +598,36 @@ impl<'g> CallRun<'g> {
             waker,
             tx,
             _rx_unused: rx_unused,
+            status: Status::Pending,
+            out: None,
+            reported: 0,
+            k: 0,
+            ended: false,
+        }
+    }
+
+    /// A call whose `InterruptibilityState` is shared with earlier operations (`state` is a
+    /// `reborrow()` of it; `tx` sends into its channel).
+    pub fn new_shared(
+        g: GRef<'g>,
+        cfg: &CallCfg,
+        tx: mpsc::Sender<InterruptSignal>,
+        state: InterruptibilityState<'g, 'g>,
+    ) -> CallRun<'g> {
+        let n = match &g {
+            GRef::Shared(g) => g.graph.node_count(),
+            GRef::Mut(g) => g.graph.node_count(),
+        };
+        let sh = Rc::new(RefCell::new(Shared::new(n, &cfg.imm)));
+        let (flag, waker) = flag_waker(true);
+        let fut = make_call(g, cfg, &sh, IntSrc::State(state));
+        CallRun {
+            fut: Some(fut),
+            sh,
+            flag,
+            waker,
+            tx,
+            _rx_unused: None,
             status: Status::Pending,
             out: None,
             reported: 0,
@@ -779,7 +828,7 @@ fn make_stream<'g>(g: &'g FnGraph<Fun>, cfg: &StreamCfg, rx: Option<Rx>) -> BoxS
         }))
     } else if cfg.int {
         Box::pin(
-            g.stream_with_interruptible(make_opts(cfg.rev, cfg.strat, true, rx))
+            g.stream_with_interruptible(make_opts(cfg.rev, cfg.strat, true, IntSrc::Rx(rx)))
                 .map(|po| match po {
                     PollOutcome::NoInterrupt(r) => SItem::Yield(r),
                     PollOutcome::Interrupted(o) => SItem::Interrupted(o),
@@ -789,7 +838,7 @@ fn make_stream<'g>(g: &'g FnGraph<Fun>, cfg: &StreamCfg, rx: Option<Rx>) -> BoxS
         Box::pin(g.stream().map(SItem::Yield))
     } else {
         Box::pin(
-            g.stream_with(make_opts(cfg.rev, cfg.strat, true, rx))
+            g.stream_with(make_opts(cfg.rev, cfg.strat, true, IntSrc::Rx(rx)))
                 .map(SItem::Yield),
         )
     }
@@ -1001,7 +1050,7 @@ impl<'g> StreamRun<'g> {
                 self.signal_sent = true;
                 self.flag_tok()
             }
-            SEv::Tokio(_) => "-".to_string(), // handled by `run_stream_tokio`
+            SEv::Tokio(_) | SEv::Race(_) => "-".to_string(), // handled by `run_stream_tokio` / `run_stream_race`
             SEv::DropStream => {
                 if let Some(s) = self.stream.take() {
                     if catch_unwind(AssertUnwindSafe(move || drop(s))).is_err() {
@@ -1108,6 +1157,10 @@ fn run_stream_events(
 ) {
     if let [SEv::Tokio(hold)] = evs {
         run_stream_tokio(id, prefix, g, cfg, *hold, lines, flags);
+        return;
+    }
+    if let [SEv::Race(rounds)] = evs {
+        run_stream_race(id, prefix, g, cfg, *rounds, lines, flags);
         return;
     }
     let mut run = StreamRun::new(g, cfg);
@@ -1236,6 +1289,180 @@ fn run_stream_tokio(
     lines.push(format!("OBS {id} {prefix}T {}", fmt_trace(&l.2)));
 }
 
+/// One wake-driven step of the consumer of `run_stream_race`: polls (until `Pending`) only if the
+/// waker flag was set; returns whether it polled.
+fn race_poll_woken<'g>(
+    flag: &AtomicBool,
+    waker: &Waker,
+    stream: &mut BoxStream<'g>,
+    later: &mut Vec<FnRef<'g, Fun>>,
+    yielded: &mut [bool],
+    ended: &mut bool,
+    trace: &std::sync::Mutex<Vec<Tok>>,
+) -> bool {
+    if *ended || !flag.swap(false, Ordering::SeqCst) {
+        return false;
+    }
+    loop {
+        let mut cx = Context::from_waker(waker);
+        match stream.as_mut().poll_next(&mut cx) {
+            Poll::Ready(Some(SItem::Yield(r))) | Poll::Ready(Some(SItem::Interrupted(Some(r)))) => {
+                yielded[r.idx] = true;
+                if let Ok(mut t) = trace.lock() {
+                    t.push(Tok::Start(r.idx));
+                }
+                later.push(r);
+            }
+            Poll::Ready(Some(SItem::Interrupted(None))) | Poll::Ready(None) => {
+                *ended = true;
+                break;
+            }
+            Poll::Pending => break,
+        }
+    }
+    true
+}
+
+/// `r<k>`: up to `k` rounds of a real race between two OS threads. Per round: the consumer polls a
+/// fresh stream until `Pending`, hands every FnRef it got to a worker thread, and from then on polls
+/// ONLY when its waker was woken; the worker drops the FnRefs one by one (spinning a little in
+/// between). When the worker has finished (joined) and the consumer has polled for as long as its
+/// flag was set, every function whose predecessors were all dropped must have been yielded –
+/// otherwise a wake-up was lost. No timeouts are involved, so a correct implementation can never
+/// fail. The FnRefs yielded after the hand-over are dropped by the consumer at the end of the round.
+/// Output: the events of the last round executed (the failing one, if any) as `EV` + `e<k>` lines.
+fn run_stream_race(
+    id: u64,
+    prefix: &str,
+    g: &FnGraph<Fun>,
+    cfg: &StreamCfg,
+    rounds: usize,
+    lines: &mut Vec<String>,
+    flags: &mut RtFlags,
+) {
+    let n = g.graph.node_count();
+    let mut preds = vec![Vec::new(); n];
+    for e in g.graph.raw_edges() {
+        let (a, b) = (e.source().index(), e.target().index());
+        if cfg.rev {
+            preds[a].push(b);
+        } else {
+            preds[b].push(a);
+        }
+    }
+    let mut last: (Vec<String>, Vec<String>, Vec<Tok>) = (Vec::new(), Vec::new(), Vec::new());
+    let mut panicked = false;
+    for round in 0..rounds.max(1) {
+        let mut evs: Vec<String> = Vec::new();
+        let mut obs: Vec<String> = Vec::new();
+        let trace: std::sync::Mutex<Vec<Tok>> = std::sync::Mutex::new(Vec::new());
+        let mut stalled = false;
+        let res = catch_unwind(AssertUnwindSafe(|| {
+            let (flag, waker) = flag_waker(false);
+            let mut stream = make_stream(g, cfg, None);
+            let mut yielded = vec![false; n];
+            let mut first: Vec<FnRef<'_, Fun>> = Vec::new();
+            let mut later: Vec<FnRef<'_, Fun>> = Vec::new();
+            let mut ended = false;
+            // phase 1: everything that is ready
+            loop {
+                flag.store(false, Ordering::SeqCst);
+                let mut cx = Context::from_waker(&waker);
+                match stream.as_mut().poll_next(&mut cx) {
+                    Poll::Ready(Some(SItem::Yield(r))) | Poll::Ready(Some(SItem::Interrupted(Some(r)))) => {
+                        yielded[r.idx] = true;
+                        if let Ok(mut t) = trace.lock() {
+                            t.push(Tok::Start(r.idx));
+                        }
+                        evs.push("n".to_string());
+                        obs.push(format!("Y{} W-", r.idx));
+                        first.push(r);
+                    }
+                    Poll::Ready(Some(SItem::Interrupted(None))) | Poll::Ready(None) => {
+                        evs.push("n".to_string());
+                        obs.push("N W-".to_string());
+                        ended = true;
+                        break;
+                    }
+                    Poll::Pending => {
+                        evs.push("n".to_string());
+                        obs.push("P W0".to_string());
+                        break;
+                    }
+                }
+            }
+            let handed: Vec<usize> = first.iter().map(|r| r.idx).collect();
+            let spin = 1 + (round * 7) % 40;
+            std::thread::scope(|sc| {
+                let trace_w = &trace;
+                let worker = sc.spawn(move || {
+                    for r in first {
+                        for _ in 0..spin {
+                            std::hint::spin_loop();
+                        }
+                        // logged just before the drop: the log never shows a successor before it
+                        if let Ok(mut t) = trace_w.lock() {
+                            t.push(Tok::End(r.idx, true));
+                        }
+                        drop(r);
+                    }
+                });
+                // phase 2: wake-driven polling while the worker drops
+                while !worker.is_finished() {
+                    race_poll_woken(&flag, &waker, &mut stream, &mut later, &mut yielded, &mut ended, &trace);
+                    std::hint::spin_loop();
+                }
+                let _ = worker.join();
+                while race_poll_woken(&flag, &waker, &mut stream, &mut later, &mut yielded, &mut ended, &trace) {}
+            });
+            // all handed-over FnRefs are dropped now
+            for &i in &handed {
+                evs.push(format!("d{i}"));
+                obs.push("W-".to_string());
+            }
+            let mut dropped = vec![false; n];
+            for &i in &handed {
+                dropped[i] = true;
+            }
+            for r in &later {
+                evs.push("n".to_string());
+                obs.push(format!("Y{} W-", r.idx));
+            }
+            if !ended {
+                for v in 0..n {
+                    if !yielded[v] && preds[v].iter().all(|&p| dropped[p]) {
+                        stalled = true;
+                    }
+                }
+            }
+            if stalled {
+                evs.push("n".to_string());
+                obs.push("P W0".to_string());
+            }
+            drop(later);
+            drop(stream);
+        }));
+        if res.is_err() {
+            panicked = true;
+        }
+        last = (evs, obs, trace.into_inner().unwrap_or_default());
+        if stalled || panicked {
+            flags.stall |= stalled;
+            break;
+        }
+    }
+    lines.push(format!(
+        "OBS {id} {prefix}EV {}",
+        if last.0.is_empty() { "-".to_string() } else { last.0.join(" ") }
+    ));
+    for (k, ob) in last.1.iter().enumerate() {
+        lines.push(format!("OBS {id} {prefix}e{k} {ob}"));
+    }
+    flags.panic |= panicked;
+    lines.push(format!("OBS {id} {prefix}Z {}", if panicked { "X" } else { "ok" }));
+    lines.push(format!("OBS {id} {prefix}T {}", fmt_trace(&last.2)));
+}
+
 /// Builds the graph of a runtime case (`None` if an op or `build()` panicked).
 pub fn build_graph(ops: &[crate::builder_case::Op]) -> Option<FnGraph<Fun>> {
     match build_ops(ops).outcome {
@@ -1271,6 +1498,41 @@ fn run_body(c: &RtCase, lines: &mut Vec<String>, flags: &mut RtFlags) {
             run_call_events(id, "", gref, cfg, evs, lines, flags);
         }
         Body::S(cfg, evs) => run_stream_events(id, "", &g, cfg, evs, lines, flags),
+        Body::H(runs) if c.family.starts_with("tokio-share") => {
+            // every run is a call with the same strategy; ONE InterruptibilityState is shared by all
+            // of them through `reborrow()` (monitors only, no fresh-graph oracle)
+            let strat = runs
+                .iter()
+                .find_map(|r| match r {
+                    Run::Call(cfg, _) => Some(cfg.strat),
+                    Run::Stream(..) => None,
+                })
+                .unwrap_or(Strat::Fin);
+            let (tx, rx) = mpsc::channel::<InterruptSignal>(16);
+            let Some(strategy) = strategy_of(strat) else {
+                return;
+            };
+            let mut state = InterruptibilityState::new(Interruptibility::new(rx.into(), strategy));
+            for (j, r) in runs.iter().enumerate() {
+                let prefix = format!("r{j}.");
+                if let Run::Call(cfg, evs) = r {
+                    let gref = if cfg.mutable {
+                        GRef::Mut(&mut g)
+                    } else {
+                        GRef::Shared(&g)
+                    };
+                    let mut run = CallRun::new_shared(gref, cfg, tx.clone(), state.reborrow());
+                    for ev in evs {
+                        if run.ended() {
+                            break;
+                        }
+                        let body = run.apply(ev);
+                        lines.push(format!("OBS {id} {prefix}{body}"));
+                    }
+                    finish_call(id, &prefix, &mut run, lines, flags);
+                }
+            }
+        }
         Body::H(runs) => {
             for (j, r) in runs.iter().enumerate() {
                 let prefix = format!("r{j}.");
